@@ -15,7 +15,8 @@ PARTIAL = [{"theorem": "location_override_local", "missing": "proved through the
 TRUSTED = []
 
 TNS = wsdlkit.TNS
-BINDINGS = {"B1": ("document", ["f", "g"]), "B2": ("rpc", ["g", "h"]), "BH": (None, ["f"])}
+# "k" has no <soap:operation> child: empty SOAPAction, the binding's style
+BINDINGS = {"B1": ("document", ["f", "g", "k"]), "B2": ("rpc", ["g", "h"]), "BH": (None, ["f"])}
 
 
 def make_wsdl(services):
@@ -25,11 +26,11 @@ def make_wsdl(services):
          'xmlns:http="http://schemas.xmlsoap.org/wsdl/http/" xmlns:xsd="http://www.w3.org/2001/XMLSchema">'
          % (wsdlkit.WNS, wsdlkit.WNS, TNS)]
     w.append('<wsdl:types><xsd:schema targetNamespace="%s" elementFormDefault="qualified">' % TNS)
-    for m in ("f", "g", "h"):
+    for m in ("f", "g", "h", "k"):
         w.append('<xsd:element name="%s"><xsd:complexType><xsd:sequence><xsd:element name="a" type="xsd:string" '
                  'minOccurs="0"/></xsd:sequence></xsd:complexType></xsd:element>' % m)
     w.append('</xsd:schema></wsdl:types>')
-    for m in ("f", "g", "h"):
+    for m in ("f", "g", "h", "k"):
         w.append('<wsdl:message name="%sDoc"><wsdl:part name="p" element="x:%s"/></wsdl:message>' % (m, m))
         w.append('<wsdl:message name="%sRpc"><wsdl:part name="a" type="xsd:string"/></wsdl:message>' % m)
     for b, (style, ops) in BINDINGS.items():
@@ -46,7 +47,8 @@ def make_wsdl(services):
         for m in ops:
             w.append('<wsdl:operation name="%s">' % m)
             if style is not None:
-                w.append('<soap:operation soapAction="urn:act:%s:%s" style="%s"/>' % (b, m, style))
+                if m != "k":
+                    w.append('<soap:operation soapAction="urn:act:%s:%s" style="%s"/>' % (b, m, style))
                 ns = ' namespace="urn:rpcns"' if style == "rpc" else ""
                 w.append('<wsdl:input><soap:body use="literal"%s/></wsdl:input>' % ns)
             else:
@@ -131,7 +133,8 @@ def expected_from_model(services, ans, location=None):
     style = BINDINGS[b][0]
     url = location or "http://h.invalid/%s/%s" % (services[s][0], pn)
     wrapper = ["urn:rpcns", m] if style == "rpc" else [TNS, m]
-    return {"sent": {"url": url, "action": '"urn:act:%s:%s"' % (b, m), "wrapper": wrapper}}
+    action = '""' if m == "k" else '"urn:act:%s:%s"' % (b, m)
+    return {"sent": {"url": url, "action": action, "wrapper": wrapper}}
 
 
 def shapes(ctx):
@@ -153,7 +156,7 @@ def shapes(ctx):
 
 
 KEYS = ["S1", "S2", "S3", "P1", "P2", "P3", "Q", "zz", -1, 0, 1, 2, 3]
-METHODS = ["f", "g", "h", "zz"]
+METHODS = ["f", "g", "h", "k", "zz"]
 
 
 def expressions(rng, n):
@@ -231,6 +234,22 @@ def run(ctx):
         if r1b.get("sent", {}).get("url") != "http://second.invalid/y" or \
                 r2b.get("sent", {}).get("url") != "http://override.invalid/x":
             ctx.fail("location option not local to its client", {"steps": steps}, [r1b, r2b], "each its own")
+        # the override does not outlive its option: clearing it, or a clone made before it was set, use the endpoint
+        tr3 = wsdlkit.RecordingTransport()
+        c3 = wsdlkit.client(w, transport=tr3)
+        c3clone = c3.clone()
+        c3.set_options(location="http://third.invalid/z")
+        r3a = real_eval(c3, tr3, steps)
+        r3c = real_eval(c3clone, c3clone.options.transport, steps)
+        c3.set_options(location=None)
+        r3b = real_eval(c3, tr3, steps)
+        declared = r1.get("sent", {}).get("url")
+        ctx.case(("loc-sticky", common.canon(steps)), True)
+        if r3a.get("sent", {}).get("url") != "http://third.invalid/z" or "third" in str(r3c.get("sent", {}).get("url")) \
+                or "third" in str(r3b.get("sent", {}).get("url")):
+            ctx.fail("a location override outlives its option (clone / after clearing it)", {"steps": steps},
+                     [r3a.get("sent", {}).get("url"), r3c.get("sent", {}).get("url"), r3b.get("sent", {}).get("url")],
+                     ["http://third.invalid/z", "declared endpoint", "declared endpoint"])
         r1["sent"]["url"] = r2["sent"]["url"] = None
         if r1 != r2:
             ctx.fail("location override changed more than the URL", {"steps": steps}, r2, r1)
